@@ -182,7 +182,7 @@ def _collector_script(producer: bool, n: int, ops: tuple) -> bool:
     return True
 
 
-@cond(q=60, t=300, encoded=ENCODED, bound="op scripts of length <= %d over {emit, finish, client_log, validate, merge}, both modes" % _NA,
+@cond(q=100, t=300, encoded=ENCODED, bound="op scripts of length <= %d over {emit, finish, client_log, validate, merge}, both modes" % _NA,
       stubs=["ipc writer := recording list (write_batch only)"])
 def collector_script(producer: bool, n: int, o0: int, o1: int, o2: int, o3: int, o4: int) -> bool:
     """
@@ -459,7 +459,7 @@ _KP = pick(4, 5)  # producer step kinds 0..4 (quick) / 0..5 incl. "nothing" (tho
 _NX = pick(3, 4)  # exchange: inputs / steps
 
 
-@cond(q=60, t=400, encoded=_SERVE_ENCODED, stubs=[_CLOCK_STUB], replay=_replay_serve_pr, signature=lambda a, c: "C10:serve_stream:producer-script-mismatch",
+@cond(q=100, t=400, encoded=_SERVE_ENCODED, stubs=[_CLOCK_STUB], replay=_replay_serve_pr, signature=lambda a, c: "C10:serve_stream:producer-script-mismatch",
       bound="producer step scripts of <= %d steps over {emit, emit+finish, finish, log+emit, raise%s}; 0..%d ticks then EOS or cancel+1 more tick; on_cancel raising or not" % (_NS, "" if _KP == 4 else ", nothing", _NS))
 def serve_stream_producer_script(t: int, cancel: bool, cancel_raises: bool, s0: int, s1: int, s2: int, s3: int) -> bool:
     """
@@ -470,7 +470,7 @@ def serve_stream_producer_script(t: int, cancel: bool, cancel_raises: bool, s0: 
     return _serve_script(False, t, cancel, cancel_raises, (s0, s1, s2, s3))
 
 
-@cond(q=60, t=400, encoded=_SERVE_ENCODED, stubs=[_CLOCK_STUB], replay=_replay_serve_ex, signature=lambda a, c: "C10:serve_stream:exchange-script-mismatch",
+@cond(q=100, t=400, encoded=_SERVE_ENCODED, stubs=[_CLOCK_STUB], replay=_replay_serve_ex, signature=lambda a, c: "C10:serve_stream:exchange-script-mismatch",
       bound="exchange response scripts of <= %d steps over {emit, log+emit, finish, raise, nothing}; 0..%d inputs then EOS or cancel+1 more input; on_cancel raising or not" % (_NX, _NX))
 def serve_stream_exchange_script(t: int, cancel: bool, cancel_raises: bool, s0: int, s1: int, s2: int, s3: int) -> bool:
     """
@@ -781,10 +781,8 @@ def coerce_input_batch_table(perm: int, t0: int, t1: int, t2: int, fieldset: int
     want = _coercion_expected(3, tv, fs)
     try:
         got = wire._coerce_input_batch(batch, _CO_SCHEMA3)
-    except TypeError as e:
-        return (not want) and "Input schema mismatch" in str(e)
     except Exception:  # noqa: BLE001
-        return False
+        return not want  # "rejected": the property does not prescribe the exception type
     return want and _received_ok(got, _CO_SCHEMA3, 3)
 
 
@@ -837,8 +835,8 @@ def _co_socket(perm: int, tv: tuple, fs: int, real: bool) -> bool:
     if _coercion_expected(2, tv, fs):
         # coerced: the state saw exactly the declared schema and the same values; one output
         return err is None and len(_CO_SEEN) == 1 and _received_ok(_CO_SEEN[0], _CO_SCHEMA2, 2) and len(data) == 1 and data[0].equals(_BATCHES[0])
-    # rejected: the state never ran, the client gets the schema-mismatch error
-    return len(_CO_SEEN) == 0 and data == [] and err is not None and err.error_type == "TypeError" and "Input schema mismatch" in err.error_message
+    # rejected: the state never ran and the client is told (the property does not prescribe the error type)
+    return len(_CO_SEEN) == 0 and data == [] and err is not None
 
 
 def _replay_coercion(args: dict) -> str | None:
